@@ -1,0 +1,73 @@
+//go:build verif
+// +build verif
+
+package leveldb
+
+// Exports for the external verification harness (/verif, property C11): a dump of an open transaction's
+// private state. Compiled only with -tags verif; add-only.
+
+// VerifTxnState is the private state of a transaction: its sequence counter, the entries of its private
+// write buffer and, per private table (oldest first, the order of Transaction.tables), the table's
+// metadata and entries.
+type VerifTxnState struct {
+	Closed       bool
+	Seq          uint64
+	Mem          []VerifEntry
+	Tables       []VerifTable // Level is -1
+	TableEntries [][]VerifEntry
+}
+
+// VerifTxnEntries dumps the transaction under its read lock. For a closed transaction only Closed and Seq
+// are set.
+func VerifTxnEntries(tr *Transaction) (VerifTxnState, error) {
+	tr.lk.RLock()
+	defer tr.lk.RUnlock()
+	st := VerifTxnState{Closed: tr.closed, Seq: tr.seq}
+	if tr.closed {
+		return st, nil
+	}
+	st.Mem = verifMemEntries(tr.mem.DB)
+	for _, t := range tr.tables {
+		vt := VerifTable{Level: -1, Num: t.fd.Num, Size: t.size,
+			Imin: append([]byte(nil), t.imin...), Imax: append([]byte(nil), t.imax...)}
+		es, err := verifReadTable(tr.db.s.tops, vt)
+		if err != nil {
+			return st, err
+		}
+		st.Tables = append(st.Tables, vt)
+		st.TableEntries = append(st.TableEntries, es)
+	}
+	return st, nil
+}
+
+// VerifTxnTableNums returns the file numbers of the transaction's private tables (empty once closed).
+func VerifTxnTableNums(tr *Transaction) []int64 {
+	tr.lk.RLock()
+	defer tr.lk.RUnlock()
+	var out []int64
+	if tr.closed {
+		return out
+	}
+	for _, t := range tr.tables {
+		out = append(out, t.fd.Num)
+	}
+	return out
+}
+
+// VerifWriteLockHeld reports whether the DB's write lock is currently taken (by a writer or by an open
+// transaction).
+func VerifWriteLockHeld(db *DB) bool { return len(db.writeLockC) > 0 }
+
+// VerifHasOpenTxn reports whether the DB records an open transaction.
+func VerifHasOpenTxn(db *DB) bool {
+	// db.tr is written under the write lock; the harness calls this only from the goroutine that opened or
+	// finished the transaction, or after Close.
+	return db.tr != nil
+}
+
+// VerifTxnSeq returns the transaction's private sequence counter.
+func VerifTxnSeq(tr *Transaction) uint64 {
+	tr.lk.RLock()
+	defer tr.lk.RUnlock()
+	return tr.seq
+}
